@@ -8,7 +8,9 @@ import (
 	"github.com/cheggaaa/mb/v3"
 	"storj.io/drpc"
 
+	"github.com/anyproto/any-sync/app"
 	rt "github.com/anyproto/any-sync/internal/verifrt"
+	"github.com/anyproto/any-sync/net/peer"
 )
 
 // The real per-stream queue and write loop against a peer whose writes complete only when the harness
@@ -76,4 +78,66 @@ func VerifC19WriteLoop() {
 		}
 	}
 	rt.Reach("done")
+}
+
+// ---- a dial that never completes must not hold a later sender past that sender's own patience
+
+type vC19Ctx struct {
+	context.Context
+	done chan struct{}
+	gone bool
+}
+
+func (c *vC19Ctx) Done() <-chan struct{} { return c.done }
+func (c *vC19Ctx) Err() error {
+	var g bool
+	rt.Atomic(func() { g = c.gone })
+	if g {
+		return context.Canceled
+	}
+	return nil
+}
+
+type vC19dHandler struct{}
+
+// the peer never answers the dial: OpenStream returns only when the dialling context ends
+func (vC19dHandler) OpenStream(ctx context.Context, p peer.Peer) (drpc.Stream, []string, int, error) {
+	<-ctx.Done()
+	return nil, nil, 0, ctx.Err()
+}
+func (vC19dHandler) HandleMessage(ctx context.Context, peerId string, msg drpc.Message) error { return nil }
+func (vC19dHandler) NewReadMessage() drpc.Message                                            { return nil }
+func (vC19dHandler) Init(a *app.App) error                                                   { return nil }
+func (vC19dHandler) Name() string                                                            { return "verif.handler" }
+
+type vC19dPeer struct {
+	peer.Peer
+	id string
+}
+
+func (p *vC19dPeer) Id() string               { return p.id }
+func (p *vC19dPeer) Context() context.Context { return context.Background() }
+
+// VerifC19Dial: a first sender (no deadline) is stuck dialling a peer; a second sender to the same peer gives
+// up when its own context ends, whatever the first one does.
+func VerifC19Dial() {
+	p := NewStreamPool(vC19dHandler{}, StreamConfig{}).(*streamPool)
+	stuck := &vC19dPeer{id: "stuck"}
+	first := &vC19Ctx{Context: context.Background(), done: make(chan struct{})}
+	second := &vC19Ctx{Context: context.Background(), done: make(chan struct{})}
+	go func() { _, _ = p.getStreams(first, stuck) }()
+	rt.Settle()
+	released := false
+	go func() {
+		_, err := p.getStreams(second, stuck)
+		rt.Atomic(func() { released = err != nil })
+	}()
+	rt.Settle()
+	rt.Atomic(func() { second.gone = true })
+	close(second.done)
+	rt.Settle()
+	var r bool
+	rt.Atomic(func() { r = released })
+	rt.Assert(r, "a-sender-whose-context-ended-is-not-held-by-somebody-elses-stuck-dial")
+	rt.Reach("released")
 }
